@@ -125,6 +125,21 @@ def main():
                 phi = rng.choice([un("not", phi), un("alw", phi), un("evT", phi, 0, 1), bi("or", phi, atom()), un("neg", phi)])
             N = rng.choice([2, 3, 4])
         uniform = False
+        if rng.random() < 0.06:
+            # prev / s_prev (next / s_next) handed an interval that starts at time 0 and spans several samples by its parent
+            # (seed C20-d: the interval [0, e] dropped instead of shifted)
+            v0 = rng.choice(vs)
+            a0 = pred(rng.choice(["ge", "gt", "le", "lt"]), var(v0), const(thr[v0]))
+            sh = un(rng.choice(["prev", "sprev", "prev", "sprev", "next", "snext"]), a0)
+            par = rng.choice(["evT", "alwT", "ev", "alw", "evT", "alwT"])
+            phi = un(par, sh, 0, rng.choice([1, 2, 3])) if par in UN_TIMED else un(par, sh)
+            r_ = rng.random()
+            if r_ < 0.3:
+                phi = un("not", phi)
+            elif r_ < 0.5:
+                phi = bi("implies", phi, pred("ge", var(v0), const(thr[v0] + 5)))
+            N = rng.choice([3, 4, 5])
+            uniform = rng.random() < 0.6
         if rng.random() < 0.1:
             # one variable below two bounded operators whose windows are nested (or overlap, or are disjoint), joined by a Boolean
             # connective: the intervals reported for the one name are united (seed r9 C20-2: the union kept the end of the later
